@@ -1,12 +1,14 @@
 import Driver.Common
 import CoapVerif.Model.Ownership
 import CoapVerif.Spec.Ownership
+import Driver.C12Paths
 /-!
 Driver for C12.  Input: `scn …` line, then ` | trace ev;ev;…` as produced by harness/c12.
 `judge`: the typestate monitor (proved equivalent to `Spec.Ownership.specOK`) over the recorded trace; harness marks
 `changed`, `leak`, `panic` are violations by themselves.
 `model`: for `path` scenarios, the projection of the recorded trace on the objects of the exchange (first lifetime of
-each) must equal the path program `Model.Ownership.processReceived` for the handler operations of the scenario.
+each) must equal the path program `Model.Ownership.processReceived` for the handler operations of the scenario;
+for `scn obs …` / `scn bw …` scenarios (tracking pool, step marks) see Driver/C12Paths.lean.
 -/
 namespace Driver.C12
 open CoapVerif CoapVerif.Spec.Ownership CoapVerif.Model.Ownership
@@ -24,6 +26,7 @@ def parseItem (s : String) : Item :=
   | ["unhold", n] => match n.toNat? with | some n => .ev (.unhold n) | none => .bad s
   | ["poison", n, "bad"] => match n.toNat? with | some n => .ev (.poisonBad n) | none => .bad s
   | ["poison", _, "ok"] => .mark "poison-ok" 0
+  | ["step", _] => .mark "step" 0      -- step marks of the path-program scenarios (Driver/C12Paths.lean)
   | [k, n] => match n.toNat? with | some n => .mark k n | none => .bad s
   | _ => .bad s
 
@@ -119,7 +122,12 @@ def handle (mode : String) (line : String) : String :=
   match line.splitOn " | trace " with
   | [scn, tr] =>
     let items := parseTrace tr
-    if mode == "judge" then judge items else model (words scn) items
+    if mode == "judge" then judge items
+    else
+      match words scn with
+      | "scn" :: "obs" :: _ => Driver.C12Paths.model "obs" tr
+      | "scn" :: "bw" :: _ => Driver.C12Paths.model "bw" tr
+      | w => model w items
   | _ => "bad-op"
 
 end Driver.C12
